@@ -72,6 +72,9 @@ type Policy interface {
 	SetWriteDeadline(t *Transport) error
 }
 
+// MinReadCost is the virtual time every transport read consumes at least.
+const MinReadCost = 10 * time.Microsecond
+
 // Hang is raised when an execution performs more transport reads than any terminating execution can.
 type Hang struct{ Reads int }
 
@@ -113,6 +116,7 @@ func (t *Transport) Read(p []byte) (int, error) {
 		panic(Hang{t.Reads})
 	}
 	a := t.pol.Read(t, len(p))
+	vtime.Advance(MinReadCost) // no transport call is instantaneous: a peer that answers at once still lets real time pass
 	if a.Cancel && t.Cancel != nil {
 		t.Cancel()
 	}
@@ -278,7 +282,7 @@ func Execute(sc Scenario, q packet.Request, pol Policy, o Options) (run Run) {
 		o.PortTimeout = time.Millisecond
 	}
 	if o.MaxReads == 0 {
-		o.MaxReads = 4*int(o.ReadTimeout/(500*time.Microsecond)) + 600
+		o.MaxReads = int(o.ReadTimeout/MinReadCost) + 1000 // more reads than the total read timeout can possibly allow
 	}
 	reply := sc.Reply
 	if o.ReplyOverride != nil {
